@@ -45,6 +45,8 @@ structure Env where
   P : Nat → Option Nat
   W : Nat → Nat
   bad : Nat → Bool
+  /-- orphan pool bound (`maxOrphanBlocks`, an internal tuning constant: a parameter of the model) -/
+  maxOrphans : Nat := 100
 
 def Env.parent (e : Env) (n : Nat) : Nat := (e.P n).getD 0
 
@@ -120,18 +122,16 @@ def flush (e : Env) : Nat → BState → List Nat → Option Res → BState × O
       else (b2, acc.2.1 ++ [k], acc.2.2)) (b, [], err)
     flush e f r.1 (rest ++ r.2.1) r.2.2
 
-def MAX_ORPHANS : Nat := 100
-
 /-- `addOrphanBlock` without the one-hour expiry: the cached oldest pointer is refreshed from the
     pool only when it is nil (a non-nil pointer is never newer than any pool member, but may name an
     orphan that has left the pool); when the pool is full the orphan it names is removed — nothing
     is removed when it is stale — and the pointer is cleared -/
-def addOrphan (b : BState) (n : Nat) : BState :=
+def addOrphan (e : Env) (b : BState) (n : Nat) : BState :=
   let cand : Option Nat := match b.oldest with
     | some o => some o
     | none => b.orphans.head?
   let b1 : BState :=
-    if b.orphans.length + 1 > MAX_ORPHANS then
+    if b.orphans.length + 1 > e.maxOrphans then
       match cand with
       | some o => { b with orphans := b.orphans.erase o, oldest := none }
       | none => b
@@ -141,7 +141,7 @@ def addOrphan (b : BState) (n : Nat) : BState :=
 /-- `ProcessBlock` for a block that passes `checkBlockSanity` (one-hour orphan expiry not modelled) -/
 def stepBlock (e : Env) (b : BState) (n : Nat) : BState × Res :=
   if b.data.contains n || b.orphans.contains n then (b, .dup)
-  else if !b.data.contains (e.parent n) then (addOrphan b n, .orphan)
+  else if !b.data.contains (e.parent n) then (addOrphan e b n, .orphan)
   else
     let (b1, r) := accept e b n
     if r.isErr then (b1, r)
